@@ -60,7 +60,7 @@ const ODD_NAMES: &[&str] = &[
 /// Deep-nesting / huge-literal sources: the parser's limits, not the stack, must stop them.
 /// `depth` up to 90 goes through the full fault closure; "deep" scenarios use 100..20000 levels
 /// with a handful of variants (cheap while the limits work: the parser gives up at level ~40).
-pub const NEST_KINDS: usize = 25;
+pub const NEST_KINDS: usize = 26;
 pub fn nest_source(kind: usize, depth: usize, rng: &Rng, d: &Delims) -> String {
     let tag = |s: &str| format!("{} {} {}", d.bs, s, d.be);
     let var = |s: &str| format!("{} {} {}", d.vs, d.sanitize_inner(s), d.ve);
@@ -151,6 +151,33 @@ pub fn nest_source(kind: usize, depth: usize, rng: &Rng, d: &Delims) -> String {
             s
         }
         23 => var(&wrap("{...", "{}", "}")),
+        // legal but unusual shapes for the compile stage (empty bodies, constant conditions,
+        // spreads of literals, nested comprehensions, nothing but a comment / a raw block)
+        24 => {
+            const SHAPES: &[&str] = &[
+                "{% if x %}{% endif %}", "{% if x %}{% else %}{% endif %}", "{% if true %}a{% elif false %}{% endif %}", "{% for a in b %}{% endfor %}", "{% for a in b %}{% else %}{% endfor %}",
+                "{% for a in [] %}x{% else %}{% endfor %}", "{% block b %}{% endblock %}", "{% block b %}{% endblock b %}", "{% filter upper %}{% endfilter %}", "{% set a %}{% endset %}",
+                "{% set_global a = [] %}", "{{ 1 if true else 2 if false else 3 }}", "{{ [] }}{{ {} }}", "{{ [...[], ...[]] }}", "{{ [...1] }}", "{{ [1, ...\"ab\"] }}", "{{ [...none] }}", "{{ [...2.5] }}",
+                "{{ [...{\"a\": 1}] }}", "{{ {...1} }}", "{{ {...[1]} }}", "{{ {...{}, \"a\": 1, ...{\"a\": 2} } }}", "{{ [...[1, 2], x] }}", "{{ [[y for y in x] for x in [[1]]] }}", "{{ [x for x in [] if x] }}",
+                "{# only a comment #}", "{% raw %}{% endraw %}", "{% raw %}{{ x }}{% endraw %}", "{{ true and false or not true }}", "{{ 1 < 2 < 3 }}", "{{ 1 == 1 == true }}", "{{ not not not x }}", "{{ -(-(-1)) }}",
+                "{% if true %}{% if false %}{% endif %}{% endif %}", "{% for a in b %}{% if a %}{% break %}{% endif %}{% endfor %}", "{% for a in b %}{% continue %}{% endfor %}", "{{ a.b?.c }}", "{{ a?[0] }}",
+                "{{ \"\" ~ \"\" }}", "{{ [][0] }}", "{{ {}[\"a\"] }}", "{{ \"\"[0:0] }}", "{{ x | default(value=[]) }}", "{% component E() %}{% endcomponent E %}{{ <E/> }}", "{% component F(a=[]) %}{{ a }}{% endcomponent F %}{{ <F a={[...[1]]}/> }}",
+            ];
+            let mut t = String::new();
+            for _ in 0..rng.range(1, 3) {
+                t.push_str(rng.pick(SHAPES));
+            }
+            let ph = ["\u{e000}", "\u{e001}", "\u{e002}", "\u{e003}", "\u{e004}", "\u{e005}"];
+            let from = ["{%", "%}", "{{", "}}", "{#", "#}"];
+            let to = [&d.bs, &d.be, &d.vs, &d.ve, &d.cs, &d.ce];
+            for i in 0..6 {
+                t = t.replace(from[i], ph[i]);
+            }
+            for i in 0..6 {
+                t = t.replace(ph[i], to[i].as_str());
+            }
+            t
+        }
         // token shapes at the edges of what the lexer accepts (numbers around the i64 range,
         // odd floats, quote styles, a backslash last)
         _ => {
